@@ -1,6 +1,7 @@
 package fam
 
 import (
+	"sort"
 	"bytes"
 	"crypto"
 	"crypto/rsa"
@@ -828,6 +829,7 @@ func runMeta(in *oInput, sp *saml2.SAMLServiceProvider, st *oStrings, clock time
 	o.FlagsOK = ars == strconv.FormatBool(in.SignReq) && was == strconv.FormatBool(!in.Skip)
 	o.Signcert, o.Enccert = "none", "none"
 	o.MethodsOK = false
+	var listed []string
 	o.SloOK = in.Variant != "slo"
 	for _, ch := range d.Children {
 		switch ch.Name {
@@ -864,6 +866,9 @@ func runMeta(in *oInput, sp *saml2.SAMLServiceProvider, st *oStrings, clock time
 					ok = ok && known // only methods the SP can decrypt (each round-trips: C11)
 				}
 				o.MethodsOK = ok
+				for a := range got {
+					listed = append(listed, a)
+				}
 			}
 		case "AssertionConsumerService":
 			b, _ := ch.Attr("Binding")
@@ -910,11 +915,30 @@ func runMeta(in *oInput, sp *saml2.SAMLServiceProvider, st *oStrings, clock time
 	} else {
 		o.MessageSigner = "error:" + m.err.Error()
 	}
-	// the key that actually decrypts: encrypt to the published certificate, validate through the SP
-	o.Decrypts = metaDecrypts(sp, o.Enccert)
+	// the key that actually decrypts: encrypt to the published certificate with EVERY method the metadata lists (and both
+	// families of key transport), validate through the SP
+	o.Decrypts = len(listed) > 0
+	sort.Strings(listed)
+	for _, alg := range listed {
+		for _, kt := range []string{idp.KtOAEP, idp.KtPKCS1} {
+			if known(alg) && !metaDecrypts(sp, o.Enccert, alg, kt) {
+				o.Decrypts = false
+				o.Note += " cannot decrypt " + alg + " / " + kt
+			}
+		}
+	}
 }
 
-func metaDecrypts(sp *saml2.SAMLServiceProvider, encName string) bool {
+func known(alg string) bool {
+	for _, k := range idp.DataAlgs {
+		if k == alg {
+			return true
+		}
+	}
+	return false
+}
+
+func metaDecrypts(sp *saml2.SAMLServiceProvider, encName, alg, kt string) bool {
 	kp, ok := outboundKeys()[encName]
 	if !ok {
 		return false
@@ -929,7 +953,7 @@ func metaDecrypts(sp *saml2.SAMLServiceProvider, encName string) bool {
 	spec.Subject.Conf.Data.Recipient = idp.S(sp.AssertionConsumerServiceURL)
 	ae := b.AssertionEl(spec, true)
 	mustSign(ae, idp.DefaultSig(w.IdpA.Key, w.IdpA.DER))
-	ee, err := b.EncryptedAssertion(idp.Plain(ae), idp.EncOpts{DataAlg: idp.EncAES256GCM, KeyTransport: idp.KtOAEP, Pub: rsaPub, Recipient: kp.DER})
+	ee, err := b.EncryptedAssertion(idp.Plain(ae), idp.EncOpts{DataAlg: alg, KeyTransport: kt, Pub: rsaPub, Recipient: kp.DER})
 	if err != nil {
 		return false
 	}
@@ -944,8 +968,8 @@ func metaDecrypts(sp *saml2.SAMLServiceProvider, encName string) bool {
 	// issuer strings of this family may be hostile; the assertion's issuer must match the configured one
 	r, err := sp2.ValidateEncodedResponse(idp.Encode(idp.Plain(root), false))
 	if err != nil {
-		// a profile error after successful decryption still proves the key decrypts
-		return !strings.Contains(err.Error(), "decrypt") && !strings.Contains(err.Error(), "no decryption certs")
+		// a typed profile error comes after successful decryption and still proves that the key decrypts
+		return projectErr(err).Cls == "typed"
 	}
 	return r != nil
 }
